@@ -88,6 +88,19 @@ impl FromDec for usize {
 
 impl<'a> Lexer<'a> {
 //@@ Lexer::new
+//@@ Lexer::get_pos
+
+    /// abstract callee: Lexer::next_as::<T> = `self.next().and_then(|word| word.to::<T>())` — the composition of the two
+    /// contracts below (trusted as such; a refactor of the header loop is likely to use it)
+    #[verifier::external_body]
+    pub fn next_as<T: FromDec>(&mut self) -> (r: Result<T>)
+        ensures
+            final(self).buf@ == old(self).buf@,
+            match r {
+                Ok(v) => lex_word(old(self).buf@, old(self).pos as int) matches Some(t) && T::dec(t.0) == Some(v) && final(self).pos as int == t.1,
+                Err(_) => lex_word(old(self).buf@, old(self).pos as int) matches Some(t) ==> T::dec(t.0) is None,
+            }
+    { unimplemented!() }
 
     /// abstract callee: Lexer::next (= next_word + advance), contract of unit `lexer`
     #[verifier::external_body]
